@@ -87,6 +87,11 @@ chk("C18", "exploration", "exhaustive enumeration of environment answers (chip-r
     "Trusted: chips.rs (buffer/FIFO addressing per datasheet). The async_device level (its own 256-byte buffer) is argued, not exercised.",
     "DESIGN.md §3 C18")
 
+chk("C17", "exploration", "exhaustive input sweeps through the real drivers, SPI writes decoded with datasheet formulas",
+    "Through the real RadioKind implementations over a recording SPI: (a) set_channel for every 100 Hz LoRaWAN channel frequency plus a 1 kHz stride over 137-1020 MHz (thorough: every 1 Hz, 8.8e8 values per chip family), PLL word decoded and compared in exact integer arithmetic; (b) every power request -128..127 and i32 extremes x 8 chip/PA variants x 3 bands, PA registers decoded with the datasheet tables (clamped request, never above it, reserved bits intact); (c) every symbol timeout 0..65535; (d) every (SF,BW) x margin 0..1000 ms through the LoRaWAN adapter against 12.25 symbols + margin in exact rational arithmetic; (e) every raw packet-status value of both chip families against the datasheet conversions.",
+    "Trusted: the datasheet decode formulas transcribed in c17.rs; ST's characterisation admitted for the STM32WL 14 dBm row; for SX127x negative-SNR RSSI both the datasheet and the reference-driver formula are admitted.",
+    "DESIGN.md §3 C17")
+
 ALL = ["C%02d" % i for i in range(1, 21)]
 NA_REASON = "check not built yet in this round; see DESIGN.md for the planned bounded exploration"
 
